@@ -33,7 +33,7 @@ m = {
     "setup_cmd": "./setup.sh",
     "hooks": {
         "guard": "DIGITAL_RF_VERIF",
-        "enable": "no source hooks: all instrumentation is external (LD_PRELOAD shim native/fsshim.c on the writer's libc calls, monkey-patching of os/shutil from the harness); checks stage /repo's working tree into /verif/.build",
+        "enable": "no source hooks: all instrumentation is external (LD_PRELOAD shims native/fsshim.c on the writer's libc file-system calls and native/gilprobe.c on gmtime, monkey-patching of os/shutil/h5py.File from the harness); checks stage /repo's working tree into /verif/.build",
         "baseline_off_cmd": "cd /repo && /venv/bin/python -m pytest -ra -q -p no:cacheprovider --timeout=900 --continue-on-collection-errors",
         "source_commits": [],
         "add_only": True,
